@@ -414,7 +414,7 @@ def gen_C16_mpi(c, rng, tier):
                 ops = [['mpi', calls, P, perm], ['dump']]
                 if rng.random() < 0.5:
                     ops += [['mpi', calls[:1], P, perm], ['dump']]          # resume from the returned checkpoint
-                sub = [['subcomm', rng.choice([1, 2, 4])]] if rng.random() < 0.5 else []     # the integration's communicator is a proper part of the world
+                sub = [['subcomm', rng.choice([1, 2, 4])]] if (kind == 'mc' or rng.random() < 0.5) else []     # the integration's communicator is a proper part of the world
                 s = small_bins([e for e in s if e[0] != 'ops'] + sub + [['ops', ops]])
                 c.add(t, 'run', s, classes=cl + ['mpi_driver', 'world_%d' % P] + (['sub_communicator'] if sub else []), info=info)
 
@@ -632,6 +632,8 @@ def gen_C07_runs(c, rng, tier):
                 tab = [fmt.tok(Fraction(rng.randint(1, 9), 2)) if k < n0 and rng.random() < 0.5 else fmt.tok(Fraction(0)) for k in range(sum(info['calls']))]
                 s = [e if e[0] != 'f' else ['f', ['tab', tab]] for e in s]
             s = [e for e in s if e[0] != 'ops'] + [['ops', [['run', info['calls']], ['dump']]]]
+            if rng.random() < 0.4 and not any(e[0] == 'nest' for e in s):
+                s.insert(-1, ['nest', 1]); cl = cl + ['nested_integration']      # (the integrand runs a VEGAS integration of its own while a point is evaluated)
             c.add(t, 'run', s, classes=cl + ['grids_in_real_runs', 'integrand_' + kindf], info=info)
 
 def rand_results(rng, fmt, m, decades=6):
@@ -880,7 +882,7 @@ def gen_C12_shared_callback(c, rng, tier):
     for t in TYPES:
         fmt = FMTS[t]
         for kind in KINDS:
-            for _ in range(scale(tier, 4, 30)):
+            for _ in range(scale(tier, 6, 30)):
                 iters = rng.choice([3, 4, 5])
                 target = rng.choice([Fraction(1, 4), Fraction(1, 10), Fraction(1, 20), Fraction(2, 5), Fraction(3, 20)])
                 s, cl, info = rand_run(rng, fmt, kind, iters=iters, calls=[4, 9, 16, 30], cb=['builtin', rng.randrange(4), fmt.rtok(target)], poly=True, finite_only=True, dists=[])
